@@ -16,7 +16,7 @@ Contents
 * `pauliAct`, `inner`          — Pauli operator applied to a vector, inner product
 * `errorList`, `asymErrorSet`  — models of `make_error_list`, `hf_split_element`, `make_asymmetric_error_set`;
                                  `sparseToSyms` (canonical string), `asymCond` (the weighted bound)
-* `klCheck`, `listedCheck`, `stabCircImplCheck`
+* `klCheck`, `listedCheck`, `listedIndepCheck`, `stabCircImplCheck`
                                — the Boolean obligations evaluated per code in the kernel
 * `runTab`, `codewordTab`, `pauliTab`
                                — the same `applyGate` / `pauliAct`, tabulated after every gate, for the driver
@@ -422,6 +422,24 @@ def stabCircImplCheck (c : Code) : Bool :=
     symsOk c.n cl.2 && match circPauli c.n cl.1 with
     | some p => p == MP.ofSyms cl.2
     | none => false
+
+/-- the product of the sub-family selected by the binary digits of `mask` (digit `j` ↔ `ps[j]`) -/
+def subsetProd : List MP → Nat → MP
+  | [], _ => MP.one
+  | p :: ps, mask => if mask % 2 == 1 then MP.mul p (subsetProd ps (mask / 2)) else subsetProd ps (mask / 2)
+
+/-- no non-empty sub-product of `ps` is a scalar multiple of the identity (`X`- and `Z`-part both zero):
+the operators are independent in the Pauli group modulo phases -/
+def independent (ps : List MP) : Bool :=
+  (List.range (2 ^ ps.length)).all fun mask => mask == 0 || MP.force (subsetProd ps mask) fun r => r.x != 0 || r.z != 0
+
+/-- the listed Pauli strings are independent and at most `n - log2 K` in number.  With `listedCheck` (each one is a
+product of the `n - log2 K` generators `S_j = U Z_j U†`) they generate a subgroup of order `2^(number listed)` of the
+stabilizer group — the whole group exactly when `n - log2 K` strings are listed (the number listed per shipped code is
+pinned in `NumqiProps/C19Coverage.lean`; ((6,4,2)) and ((8,8,3)) list 2 of 4 and 4 of 5). -/
+def listedIndepCheck (c : Code) : Bool :=
+  2 ^ c.logK == c.K && c.logK ≤ c.n && c.listed.length ≤ c.n - c.logK && c.listed.all (symsOk c.n) &&
+  MP.forceList (c.listed.map MP.ofSyms) fun ps => independent ps
 
 /-! ### vector-level evaluations (driver) -/
 
